@@ -264,7 +264,7 @@ def run(ctx):
         raise Inconclusive('GEN(e2e) produced too few cases')
     cases.sort(key=lambda c: json.dumps([c['fam'], c['group'], c['argv'], c['stdin']]))
     if thorough:
-        cases = [c for c in cases if not (c['fam'] == 'loop' and len(c['fidx']) >= 4 and ctx.rng.random() > 0.4)]
+        cases = [c for c in cases if not (c['fam'] == 'loop' and len(c['fidx']) >= 4 and ctx.rng.random() > 0.25)]
     else:
         # quick: loop family exhaustive for <= 2 inputs, seeded sample of the 3-input lists and of the law groups
         groups = sorted({c['group'] for c in cases if c['fam'].startswith('law:')})
@@ -290,7 +290,7 @@ def run(ctx):
     if len(gen_events) != len(cases):
         raise Inconclusive('replay lost cases')
     # TV driver: seeded random longer/mixed command lines
-    nrand = 2500 if thorough else 250
+    nrand = 2000 if thorough else 250
     rpath = os.path.join(ctx.build, 'rand_events.ndjson')
     ctx.run([binp, 'rand', str(nrand), rpath], check=True, timeout=1500)
     rand_events = vlib.read_ndjson(rpath)
